@@ -79,15 +79,15 @@ def injectHtmlAttributes(tag: str, consume: bool=True) -> str:
     result = tag
     attrs = ''
     if classes:
-        match = re.compile(r'^(<[^>]*class=")(.*?)"', re.IGNORECASE).search(result)
+        match = re.compile(r'^(<(?:[^>"]|"[^"]*")*?\sclass=")(.*?)"', re.IGNORECASE).search(result)
         if match:
-            # Inject class names into existing class attribute in first tag.
+            # Inject class names into existing class attribute in first tag (an attribute, not text inside a quoted value).
             result = result.replace(match[0], f'{match[1]}{classes} {match[2]}"', 1)
         else:
             attrs = f'class="{classes}"'
     if id:
         id = id.lower()
-        has_id = re.compile(r'^<[^<]*id=".*?"', re.IGNORECASE).search(result)
+        has_id = re.compile(r'^<(?:[^<"]|"[^"]*")*?\sid=".*?"', re.IGNORECASE).search(result)
         if has_id or id in ids:
             options.errorCallback(f"duplicate 'id' attribute: {id}")
         else:
@@ -95,7 +95,7 @@ def injectHtmlAttributes(tag: str, consume: bool=True) -> str:
         if not has_id:
             attrs += f' id="{id}"'
     if css:
-        match = re.compile(r'^(<[^>]*style=")(.*?)"', re.IGNORECASE).search(result)
+        match = re.compile(r'^(<(?:[^>"]|"[^"]*")*?\sstyle=")(.*?)"', re.IGNORECASE).search(result)
         if match:
             # Inject CSS styles into first style attribute in first tag.
             group2 = match[2].strip()
